@@ -581,6 +581,23 @@ impl GCl {
         self.check_served(out, j, &post.1).await;
     }
 
+    /// `ApplyRecoveredState` (checkpoint value into the actor)
+    async fn recover(&mut self, out: &mut Out, j: usize, key: &str, v: &MRv) {
+        let fresh = !self.hs[j].get_snapshot().await.contains_key(key);
+        self.hs[j].apply_recovered_state(key.to_string(), v.to_real());
+        let post = dump(&self.hs[j]).await;
+        out.count("b:recovered");
+        self.hist.push(format!("recover '{}' = {} into node{}", key, v.show(), j));
+        if !fresh {
+            self.bad.push((j, "recover-over-existing", vec![key.to_string()]));
+        }
+        out.op(
+            format!("GR {} {} {} ;; {}", j, hex(key.as_bytes()), v.show(), post.0),
+            format!("fresh={} | {} | -", fresh as u8, post.0),
+        );
+        self.check_served(out, j, &post.1).await;
+    }
+
     async fn deliver_all(&mut self, out: &mut Out, rng: Option<&mut Rng>) {
         let mut todo: Vec<(usize, usize)> = Vec::new();
         for (idx, (o, _)) in self.sent.iter().enumerate() {
@@ -700,6 +717,20 @@ enum St {
     /// deliver delta #idx to node j
     V(usize, usize),
     X(usize, &'static str, MRv),
+    /// ApplyRecoveredState on node j
+    R(usize, &'static str, MRv),
+}
+
+fn hash_rv(fields: &[(&str, Option<&str>, u64)], r: u64) -> MRv {
+    let t = fields.iter().map(|f| f.2).max().unwrap_or(0);
+    MRv {
+        crdt: MCrdt::H(fields.iter().map(|(f, v, t)| (f.to_string(), MLww { v: v.map(|x| x.as_bytes().to_vec()), t: *t, r, tomb: v.is_none() })).collect()),
+        vc: None,
+        exp: None,
+        t,
+        r,
+        rf: None,
+    }
 }
 
 fn lww_rv(v: Option<&str>, t: u64, r: u64, tomb: bool, exp: Option<u64>) -> MRv {
@@ -728,6 +759,15 @@ fn scenarios() -> Vec<(&'static str, usize, Vec<St>, Vec<&'static str>)> {
         ("x:expiry-zero", 2, vec![X(0, "z", lww_rv(Some("v"), 5, 9, false, Some(0)))], vec!["z"]),
         ("x:empty-register", 2, vec![C(0, Command::set("z".into(), s("v"))), X(0, "z", lww_rv(None, 5, 9, false, None))], vec!["z"]),
         ("x:multi-key-del", 2, vec![C(0, Command::set("a".into(), s("1"))), C(0, Command::set("b".into(), s("2"))), Sync, C(0, Command::Del(vec!["a".into(), "b".into()])), Sync], vec!["a", "b"]),
+        // ApplyRecoveredState: a checkpoint into a fresh actor, then normal traffic
+        ("recover-checkpoint", 2, vec![
+            R(0, "a", lww_rv(Some("v"), 4, 2, false, Some(5000))), R(0, "h", hash_rv(&[("f", Some("1"), 1), ("g", None, 2)], 2)),
+            R(0, "b", lww_rv(None, 30, 2, true, None)), R(0, "c", lww_rv(Some("7"), 3, 1, false, None)),
+            // the peer recovers the same checkpoint (recovered state is not gossiped)
+            R(1, "a", lww_rv(Some("v"), 4, 2, false, Some(5000))), R(1, "h", hash_rv(&[("f", Some("1"), 1), ("g", None, 2)], 2)),
+            R(1, "b", lww_rv(None, 30, 2, true, None)), R(1, "c", lww_rv(Some("7"), 3, 1, false, None)),
+            C(0, Command::Incr("c".into())), C(0, hset1("h", "g", "3")), C(0, Command::set("b".into(), s("w"))), Sync], vec!["a", "b", "c", "h"]),
+        ("x:recover-over-existing", 2, vec![C(0, Command::set("a".into(), s("v"))), R(0, "a", lww_rv(None, 30, 2, true, None))], vec!["a"]),
         // stale / reordered deltas must still be re-materialised
         ("concurrent-hash-fields", 2, vec![C(0, hset1("h", "f", "1")), C(1, hset1("h", "g", "2")), Sync], vec!["h"]),
         ("reordered-to-third", 3, vec![C(0, Command::set("s".into(), s("1"))), C(0, Command::set("s".into(), s("2"))), V(1, 1), V(1, 0), V(2, 0), V(2, 1), V(2, 0)], vec!["s"]),
@@ -814,6 +854,7 @@ async fn part_b(out: &mut Out, rng: &mut Rng, n_random: u64) {
                 St::Sync => cl.deliver_all(out, None).await,
                 St::V(j, idx) => cl.deliver(out, j, idx).await,
                 St::X(j, k, v) => cl.crafted(out, j, k, &v).await,
+                St::R(j, k, v) => cl.recover(out, j, k, &v).await,
             }
         }
         let text = cl.hist.join("; ");
@@ -883,5 +924,5 @@ pub fn run(a: &Args) {
     let rt = tokio::runtime::Builder::new_current_thread().enable_all().build().unwrap();
     let nb = (a.n * 2).max(40);
     rt.block_on(part_b(&mut out, &mut rng, nb));
-    out.finish("case (part A) = one cluster history: 2..4 real ShardReplicaStates, 4..40 events (local SET[PX]/DEL/HSET/HDEL on 3 colliding keys; deliveries of arbitrary earlier deltas to arbitrary nodes incl. duplicates), then usually delivery of everything missing in random order; per key the flags delivered/compat/agree/agreeexp are compared with the model; non-trivial iff some key has ≥ 2 deltas and is fully delivered. Case (part B) = one history on 2..3 real ReplicatedShardActors: 2..10 client commands (SET with NX/XX/GET/EX/PX/KEEPTTL/EXAT/PXAT, GETSET, INCR/DECR/INCRBY/DECRBY, APPEND, DEL of 1..3 keys, HSET/HDEL/HINCRBY, on keys shared between string and hash commands; one third of the histories also MSET/SETNX/GETDEL/EXPIRE/PERSIST/RENAME/RPUSH/MSETNX/FLUSHALL) interleaved with deliveries of arbitrary earlier deltas, then usually delivery of everything missing in random order with duplicates; every step is compared with the Lean glue model (reply, served keyspace, delta / merged value, supported-fragment verdict), then GET/EXISTS/HGETALL/TTL on every node and the per-key flags delivered/kind/agree/reads; non-trivial iff ≥ 2 deltas and complete delivery; plus 17 fixed scenarios. Distinct by history text");
+    out.finish("case (part A) = one cluster history: 2..4 real ShardReplicaStates, 4..40 events (local SET[PX]/DEL/HSET/HDEL on 3 colliding keys; deliveries of arbitrary earlier deltas to arbitrary nodes incl. duplicates), then usually delivery of everything missing in random order; per key the flags delivered/compat/agree/agreeexp are compared with the model; non-trivial iff some key has ≥ 2 deltas and is fully delivered. Case (part B) = one history on 2..3 real ReplicatedShardActors: 2..10 client commands (SET with NX/XX/GET/EX/PX/KEEPTTL/EXAT/PXAT, GETSET, INCR/DECR/INCRBY/DECRBY, APPEND, DEL of 1..3 keys, HSET/HDEL/HINCRBY, on keys shared between string and hash commands; one third of the histories also MSET/SETNX/GETDEL/EXPIRE/PERSIST/RENAME/RPUSH/MSETNX/FLUSHALL) interleaved with deliveries of arbitrary earlier deltas, then usually delivery of everything missing in random order with duplicates; every step is compared with the Lean glue model (reply, served keyspace, delta / merged value, supported-fragment verdict), then GET/EXISTS/HGETALL/TTL on every node and the per-key flags delivered/kind/agree/reads; non-trivial iff ≥ 2 deltas and complete delivery; plus 19 fixed scenarios. Distinct by history text");
 }
